@@ -215,17 +215,32 @@ def grid_keys(metric, xs, ys):
     return sorted({key_of(metric, dx, dy) for dx in dxs for dy in dys})
 
 
+_KEYMEMO = {}
+
+
+def _key_chain(metric, k):
+    """(float32 distance, dist_sqr = float32(dist**2), float32(sqrt(dist_sqr)), float32 product lp*lp) of one key"""
+    m = _KEYMEMO.get((metric, k))
+    if m is None:
+        d = dist32_of_key(metric, k)
+        # Numba types float32 ** 2 (literal exponent) as float32: dist_sqr = float32(dist*dist); the other side of the
+        # tie comparison, line_proximity*line_proximity, is the float32 product of float32(sqrt(dist_sqr)) with itself
+        g = float(np.float32(d) ** 2)
+        lpv = np.float32(math.sqrt(g))
+        hh = float(lpv * lpv)
+        m = (d, g, float(lpv), hh)
+        _KEYMEMO[(metric, k)] = m
+    return m
+
+
 def key_params(metric, xs, ys, md):
     """-> (R token, M token, tie list) or raises ValueError when the float chain is not order-isomorphic to the keys"""
     K = grid_keys(metric, xs, ys)
-    d = {k: dist32_of_key(metric, k) for k in K}
-    # Numba types float32 ** 2 (literal exponent) as float32: dist_sqr = float32(dist*dist); the other side of the
-    # tie comparison, line_proximity*line_proximity, is the float32 product of float32(sqrt(dist_sqr)) with itself
-    g = {k: float(np.float32(d[k]) ** 2) for k in K}
-    lpv = {k: np.float32(math.sqrt(g[k])) for k in K}
-    hh = {k: float(lpv[k] * lpv[k]) for k in K}
+    ch = {k: _key_chain(metric, k) for k in K}
+    g = {k: ch[k][1] for k in K}
+    hh = {k: ch[k][3] for k in K}
     for k in K:
-        if float(lpv[k]) != d[k]:
+        if ch[k][2] != ch[k][0]:
             raise ValueError('sqrt(dist_sqr) does not give the float32 distance back for key %d' % k)
     for a, b in zip(K, K[1:]):
         if not (g[a] < g[b] and g[a] < hh[b] and not (g[b] < hh[a])):
